@@ -90,8 +90,8 @@ def plan(ctx):
         dict(module="FileSpec", cfg="GenFileSpecNames%s.cfg" % T, kind="file", tag="N", workers=3,
              label="File: every name of <= 4 '.'-separated tokens over %d tokens (keywords, unknown, empty, URL stems), no format string: "
                    "I => A on the domain, check() verdict, termination; exported" % (12 if q else 15)),
-        dict(module="FileSpec", cfg="GenFileSpecFmt%s.cfg" % T, kind="file", tag="F", workers=2,
-             label="File export: every format part of <= 3 tokens over 7 tokens x %s" % ("0/1 option x 5 name classes x both constructors" if q else "<= 1 option of 5 x 6 name classes x both constructors")),
+        dict(module="FileSpec", cfg="GenFileSpecFmtQ.cfg", kind="file", tag="F", workers=2,
+             label="File export: every format part of <= 3 tokens over 7 tokens x 0/1 option x 5 name classes x both constructors"),
         dict(module="FileSpec", cfg="GenFileSpecOpts%s.cfg" % T, kind="file", tag="O", workers=2,
              label="File export: 7 heads x every sequence of <= %d option parts over 12 parts" % (2 if q else 3)),
         dict(module="FileSpec", cfg="GenFileSpecSet%s.cfg" % T, kind="file", tag="S", workers=2,
@@ -109,13 +109,15 @@ def plan(ctx):
         # ---- osmium::CRC
         dict(module="FileSpecCrc", cfg="GenFileSpecCrc%s.cfg" % T, kind="crc", tag="C", workers=2, cov=CRC_ACTIONS,
              label="CRC: feed = AFeed(content) for every layout x 7 physical variants of 99 contents, feed injective up to K1-K4, round trips "
-                   "over %d option vectors (checked and exported)" % (21 if q else 48)),
+                   "over %d option vectors (checked and exported)" % (21 if q else 108)),
     ]
     if not q:
+        jobs.append(dict(module="FileSpec", cfg="GenFileSpecFmtT.cfg", kind="file", tag="FT", workers=3,
+                         label="File export: every format part of <= 3 tokens over all 16 tokens (every format keyword) x 5 name classes x both constructors"))
         jobs.insert(0, dict(module="FileSpec", cfg="MCFileSpecNamesT.cfg", workers=4,
                             label="File: every name of <= 4 '.'-separated tokens over 24 tokens (keywords, unknown, empty, URL stems, '-'), no format "
                                   "string: I => A on the domain, check() verdict, termination"))
-        jobs.append(dict(module="FileSpecCrc", cfg="MCFileSpecCrc.cfg", workers=2, label="CRC: the same without history variable, 48 round-trip option vectors"))
+        jobs.append(dict(module="FileSpecCrc", cfg="MCFileSpecCrc.cfg", workers=2, label="CRC: the same without history variable, 108 round-trip option vectors"))
     else:
         for j in jobs:
             j["workers"] = 2
@@ -448,3 +450,76 @@ def replay_case(ctx, d):
         shutil.rmtree(tmp, ignore_errors=True)
     ctx.evaluations = len(c.get("steps", [1]))
     ctx.sample({"ext": True, "what": describe(c)})
+
+
+def selftest(ctx):
+    """Binding of the extension's replay itself: doctored expectations have to be reported, the undoctored cases accepted
+    (no tree is touched)."""
+    import copy
+    picks = []
+    for module, cfg, kind, tag in (("FileSpec", "GenFileSpecSetQ.cfg", "file", "tS"), ("FileSpecMd", "GenFileSpecMdQ.cfg", "md", "tM"),
+                                   ("FileSpecHeader", "GenFileSpecHeaderQ.cfg", "header", "tH"), ("FileSpecCrc", "GenFileSpecCrcQ.cfg", "crc", "tC")):
+        got = []
+        vlib.tlc_ok(vlib.tlc(module, cfg, workers=2, extra=["-noGenerateSpecTE"], case_cb=got.append, tag="C01ext_selftest_" + tag), cfg)
+        got.sort(key=lambda c: json.dumps(c, sort_keys=True))
+        for i, c in enumerate(got):
+            c["id"] = "%s-%d" % (tag, i)
+            c["k"] = kind
+            c["n"] = i
+        picks.append(got)
+    files, mds, hdrs, crcs = picks
+    f1 = next(c for c in files if c["steps"][0]["exp"]["multi"] and len(c["steps"]) == 3)
+    f2 = next(c for c in files if not c["steps"][-1]["exp"]["ok"])
+    m1 = next(c for c in mds if len(c["steps"]) == 3 and "error" not in c["steps"][0]["exp"])
+    h1 = next(c for c in hdrs if c["steps"][-1]["exp"]["joined"]["bl"]["x"] != 99)
+    c1 = next(c for c in crcs if c["kind"] == "layout" and c["c"]["t"] == "way" and c["mem"] == "grow")
+    c2 = next(c for c in crcs if c["kind"] == "roundtrip" and c["opt"]["fmt"] == "opl" and c["feed"] != c["feed0"])
+
+    def doctor(c, fn, name):
+        d = copy.deepcopy(c)
+        d["id"] = "doctored-" + name
+        fn(d)
+        return d
+
+    def flip_multi(d):
+        d["steps"][0]["exp"]["multi"] = False
+        d["steps"][0]["exp"]["view"]["hist"] = False
+
+    def accept_unknown(d):
+        d["steps"][-1]["exp"]["ok"] = True
+
+    def other_text(d):
+        d["steps"][-1]["exp"]["str"] = ["version"] if d["steps"][-1]["exp"]["str"] != ["version"] else ["uid"]
+
+    def move_corner(d):
+        d["steps"][-1]["exp"]["joined"]["tr"]["x"] = -2 if d["steps"][-1]["exp"]["joined"]["tr"]["x"] != -2 else 2
+
+    def drop_feed_item(d):
+        d["feed"] = d["feed"][:1] + d["feed"][2:]
+
+    def keep_everything(d):
+        d["feed"] = d["feed0"]
+
+    doctored = [doctor(f1, flip_multi, "file-multi"), doctor(f2, accept_unknown, "file-check"), doctor(m1, other_text, "md-text"),
+                doctor(h1, move_corner, "header-joined"), doctor(c1, drop_feed_item, "crc-feed"), doctor(c2, keep_everything, "crc-roundtrip")]
+    plain = [f1, f2, m1, h1, c1, c2]
+    tmp = os.path.join(vlib.BUILD, "tmp", "C01ext_%d" % os.getpid())
+    shutil.rmtree(tmp, ignore_errors=True)
+    os.makedirs(tmp)
+    try:
+        cases = doctored + plain
+        res = vlib.replay_cases(build(), cases, nproc=2, timeout=600, args=[tmp])
+        byid = {c["id"]: c for c in cases}
+        crcmap = collections.defaultdict(set)
+        for r in res:
+            judge(ctx, byid[r["id"]], r, crcmap)
+    finally:
+        shutil.rmtree(tmp, ignore_errors=True)
+    reported = set(v[1]["case"]["id"] for v in ctx.violations)
+    ok = reported == set(d["id"] for d in doctored) and len(res) == len(cases)
+    vlib.log("selftest (extension): %d doctored expectations reported, %d undoctored cases accepted: %s"
+             % (len(reported & set(d["id"] for d in doctored)), len(plain) - len(reported & set(c["id"] for c in plain)), "OK" if ok else "FAILED"))
+    for v in ctx.violations:
+        vlib.log("  reported: " + v[0][:170])
+    ctx.violations = []
+    return 0 if ok else 2
